@@ -3,7 +3,7 @@
    lint -> translate -> build the property's Coq closure -> audit assumptions -> correspondence A (model vs /repo)
    -> correspondence B (spec vs reference package) -> property statement on the real code (oracle) -> known findings
    -> evidence.  Exit 1 with a VIOLATION line if anything is not shown to hold."""
-import sys, os, json, time, argparse, importlib, hashlib, re, traceback
+import sys, os, json, time, argparse, importlib, hashlib, re, traceback, subprocess
 sys.path.insert(0, os.path.dirname(os.path.abspath(__file__)))
 import vlib
 from vlib import VERIF, COQ, OUT
@@ -180,6 +180,29 @@ def main():
                 assumptions[t] = res[t]
     else:
         cov['obligations'] += len(mod.THEOREMS)
+
+    # 3b. thorough tier only: the independent checker coqchk re-checks the compiled property module(s) and everything they depend on,
+    # and reports the axioms of the whole context (Props/C02Kernels is exempt: its proof is a 50 s vm_compute that coqchk, which has
+    # no VM, cannot replay in reasonable time - stated in DESIGN section 5)
+    if build_ok and requested_tier == 'thorough' and os.environ.get('VERIF_COQCHK', '1') == '1':
+        mods = ['PW.' + m for m in mod.PROPS_MODULE.split() if m not in ('Props.C02Kernels',)]
+        cov['obligations'] += 1
+        try:
+            r = subprocess.run(['coqchk', '-silent', '-o', '-Q', 'theories', 'PW'] + mods, cwd=os.path.join(VERIF, 'coq'),
+                               stdout=subprocess.PIPE, stderr=subprocess.STDOUT, text=True, timeout=2400)
+            out = r.stdout
+            m = re.search(r'\* Axioms:(.*?)\n\s*\n\* Constants', out, re.S)
+            axs = [a.strip() for a in (m.group(1).split('\n') if m else []) if a.strip() and a.strip() != '<none>']
+            short = [a.replace('Coq.Logic.', '').replace('Coq.Reals.', '') for a in axs]
+            extra = [a for a in short if a not in ALLOWED_AXIOMS]
+            unsafe = [l for l in out.splitlines() if ('type-in-type' in l or 'unsafe' in l or 'positivity is assumed' in l) and '<none>' not in l]
+            cov['coqchk'] = dict(modules=mods, exit=r.returncode, axioms=short, flags=unsafe)
+            if r.returncode != 0 or extra or unsafe:
+                broken.append(('coqchk', 'exit %d, axioms outside the allow-list %s, flags %s, tail: %s' % (r.returncode, extra, unsafe, out[-300:])))
+            else:
+                cov['discharged'] += 1
+        except subprocess.TimeoutExpired:
+            broken.append(('coqchk', 'timed out'))
 
     # 4./5. correspondences (exact, evaluated inside Coq)
     corr_stats = []
